@@ -104,7 +104,7 @@ class UnitRun:
         self.canaries = canaries
 
 
-def run_unit(name, carve=None, mutate=None, tag='main', verify_fn=None, timeout=1500, features=None):
+def run_unit(name, carve=None, mutate=None, tag='main', verify_fn=None, timeout=1500, features=None, extra_flags=()):
     U = load_unit(name)
     deps = None
     if getattr(U, 'repo_build', None):
@@ -116,7 +116,7 @@ def run_unit(name, carve=None, mutate=None, tag='main', verify_fn=None, timeout=
     gen.unit_name = name
     gen.kind_tags = getattr(U, 'kind_tags', {})
     path = os.path.join(OUT, 'gen', '%s_%s.rs' % (name, tag))
-    flags = list(getattr(U, 'flags', []))
+    flags = list(getattr(U, 'flags', [])) + list(extra_flags)
     if verify_fn:
         flags += ['--verify-function', verify_fn]
     res = verus.run(gen, path, U.externs, flags, timeout=timeout, deps=deps)
@@ -181,6 +181,78 @@ def write_replay(pid, tier, viol, unit_runs, witness=None):
     json.dump(data, open(path, 'w'), indent=1)
     return path
 
+
+
+HARNESS_TARGET = os.path.join(VERIF, '.cache', 'harness-target')
+WITNESS_TESTS = {
+    'C01': ['c01_search'], 'C02': ['c01_search'], 'C03': ['c03_witness'], 'C05': ['c05_witness'], 'C10': ['c10_witness', 'c10_search'],
+    'C14': ['c14_witness'], 'C15': ['c15_witness'], 'C16': ['c16_witness'],
+}
+
+
+def witness_search(pid, budget_s=600):
+    """after a failed proof (or an undecided run): run the recorded witness inputs and the small enumerative searches of this
+    property against the REAL crates of /repo's working tree.  Returns a dict describing a failing input, or None.
+    It can only ADD a concrete failing input to a violation report; it never turns a failed proof into a pass."""
+    import subprocess
+    tests = WITNESS_TESTS.get(pid, [])
+    if not tests:
+        return None
+    env = dict(os.environ, CARGO_NET_OFFLINE='true', CARGO_TARGET_DIR=HARNESS_TARGET)
+    for t in tests:
+        try:
+            p = subprocess.run(['cargo', 'test', '--offline', '--manifest-path', os.path.join(VERIF, 'harness', 'Cargo.toml'), '--test', t, '--', '--test-threads', '4'],
+                               capture_output=True, text=True, env=env, timeout=budget_s)
+        except subprocess.TimeoutExpired:
+            continue
+        out = p.stdout + p.stderr
+        if p.returncode != 0 and re.search(r'test result: FAILED|panicked at', out):
+            failed = re.findall(r'^test (\S+) \.\.\. FAILED', out, re.M)
+            m = re.search(r'WITNESS ([^\n]*)', out)
+            detail = m.group(1) if m else '\n'.join(l for l in out.split('\n') if 'panicked at' in l or 'assertion' in l or 'left:' in l or 'right:' in l)[:1500]
+            return {'harness_test': t, 'failed_tests': failed, 'failing_input': detail[:2000],
+                    'rerun': 'CARGO_TARGET_DIR=%s cargo test --offline --manifest-path %s/harness/Cargo.toml --test %s' % (HARNESS_TARGET, VERIF, t)}
+    return None
+
+
+def kill_matrix(pid, units):
+    """thorough tier: every recorded mutant that targets this property (in-memory edits, never /repo) must be rejected by an
+    obligation tagged with it; every benign edit must still verify.  Reported in the evidence; never changes the verdict."""
+    import importlib.util
+    from concurrent.futures import ThreadPoolExecutor
+    out = {}
+    for un in units:
+        mp = os.path.join(VERIF, 'contracts', un, 'mutants.py')
+        if not os.path.exists(mp):
+            continue
+        spec = importlib.util.spec_from_file_location('mutants_' + un, mp)
+        mod = importlib.util.module_from_spec(spec)
+        spec.loader.exec_module(mod)
+        jobs = [(m, False) for m in mod.M if m.get('expect') == pid] + [(m, True) for m in getattr(mod, 'BENIGN', [])]
+
+        def one(j):
+            m, benign = j
+            try:
+                ur = run_unit(un, mutate=(m['file'], m['old'], m['new'], m.get('nth', 0)), tag='mut_' + m['id'], features=m.get('features'))
+            except splice.ExtractError as e:
+                return m['id'], 'not-applicable-to-this-tree (%s)' % str(e)[:80]
+            real, _, _ = split_canaries(ur)
+            try:
+                os.remove(ur.res.gen_path)
+            except OSError:
+                pass
+            if ur.res.status == 'undecided':
+                return m['id'], 'undecided'
+            mine = [f for f in real if pid in f.tags and not f.finding]
+            if benign:
+                return m['id'], ('verifies' if not mine else 'FALSE-ALARM')
+            return m['id'], ('killed' if mine else 'SURVIVED')
+        with ThreadPoolExecutor(max_workers=8) as ex:
+            res = list(ex.map(one, jobs))
+        out[un] = {'killed': sum(1 for r in res if r[1] == 'killed'), 'benign_verify': sum(1 for r in res if r[1] == 'verifies'),
+                   'total_mutants': sum(1 for j in jobs if not j[1]), 'total_benign': sum(1 for j in jobs if j[1]),
+                   'attention': [r for r in res if r[1] not in ('killed', 'verifies')]}
+    return out
 
 def run_property(pid, tier='quick', seed=0, replay=None):
     t0 = time.time()
@@ -251,6 +323,31 @@ def run_property(pid, tier='quick', seed=0, replay=None):
             viol += [(ur, f) for f in rest]
     if undecided is None and canary_problems:
         undecided = ' ;; '.join(canary_problems)
+    retried = None
+    if undecided is None and viol:
+        # a failed obligation is reported only if it fails again with a different solver seed and three times the resource limit:
+        # a proof found by any run is a proof; a failure that does not reproduce is solver incompleteness, not a violation
+        still = []
+        retried = []
+        for un in sorted(set(ur.name for (ur, f) in viol)):
+            try:
+                ur2 = run_unit(un, tag='retry', extra_flags=['--rlimit', '30', '--smt-option', 'smt.random_seed=%d' % (seed + 7)])
+            except splice.ExtractError:
+                ur2 = None
+            if ur2 is None or ur2.res.status == 'undecided':
+                still += [(ur, f) for (ur, f) in viol if ur.name == un]
+                retried.append('%s: retry undecided, first result kept' % un)
+                continue
+            real2, _, _ = split_canaries(ur2)
+            keys2 = set((f.fn, f.kind) for f in real2 if pid in f.tags)
+            for (ur, f) in viol:
+                if ur.name != un:
+                    continue
+                if (f.fn, f.kind) in keys2:
+                    still.append((ur, f))
+                else:
+                    retried.append('%s: %s discharged on retry (seed %d, rlimit 30)' % (un, f.oblig, seed + 7))
+        viol = still
     # ---- evidence
     obl = dis = 0
     smt = 0
@@ -309,6 +406,7 @@ def run_property(pid, tier='quick', seed=0, replay=None):
             'solver': 'z3 via verus 0.2026.09.13', 'smt_ms': smt,
             'samples': samples,
             'known_findings_reported': [f.oblig for (_, f) in known],
+            'retry_after_failure': retried,
             'units': P['units'],
             'undecided': undecided,
             'exhaustive': False,
@@ -336,17 +434,44 @@ def main(argv):
     if a.replay:
         data = json.load(open(a.replay))
         print('replaying', a.replay, '(%d failed obligations recorded)' % len(data['failed_obligations']))
+        if data.get('witness'):
+            # replay the concrete failing input against the real code of the current tree
+            w = witness_search(pid)
+            if w:
+                print('  still fails on the real code: %s' % w['failing_input'][:400])
+                print('VIOLATION property=%s replay=%s' % (pid, a.replay))
+                return 1
+            print('  the recorded input no longer fails; re-running the proof')
     ev, viol, known, undecided, unit_runs = run_property(pid, a.tier, seed)
     extra = PROPS[pid].get('post')
     witness = None
-    if a.tier == 'thorough' and PROPS[pid].get('thorough'):
-        PROPS[pid]['thorough'](ev, unit_runs, seed)
-    if viol and PROPS[pid].get('witness'):
-        try:
-            witness = PROPS[pid]['witness'](viol, seed)
-        except Exception as e:  # the witness search is best effort only
-            witness = None
-            ev['coverage']['witness_search_error'] = str(e)
+    if a.tier == 'thorough':
+        if not viol and not undecided:
+            # (a) solver-seed / resource variation: the proofs must not depend on one lucky seed
+            stab = []
+            for un in PROPS[pid]['units']:
+                for sd in (seed + 1, seed + 2):
+                    try:
+                        ur2 = run_unit(un, tag='seed%d' % sd, extra_flags=['--smt-option', 'smt.random_seed=%d' % sd])
+                        real2, _, _ = split_canaries(ur2)
+                        bad = [f.oblig for f in real2 if pid in f.tags and not f.finding]
+                        stab.append({'unit': un, 'seed': sd, 'status': ur2.res.status, 'smt_ms': ur2.res.smt_ms, 'failed_under_this_seed': bad})
+                    except splice.ExtractError as e:
+                        stab.append({'unit': un, 'seed': sd, 'status': 'extract-error'})
+            ev['coverage']['seed_variation'] = stab
+            # (b) kill matrix
+            km = kill_matrix(pid, PROPS[pid]['units'])
+            ev['coverage']['kill_matrix'] = km
+            for un, r in km.items():
+                print('  kill-matrix %s: %d/%d mutants of %s killed, %d/%d benign edits verify%s' % (
+                    un, r['killed'], r['total_mutants'], pid, r['benign_verify'], r['total_benign'], (' ATTENTION ' + str(r['attention'])) if r['attention'] else ''))
+        else:
+            # (c) witness search on the real code: adds a concrete failing input to the report when it finds one
+            try:
+                witness = witness_search(pid)
+            except Exception as e:
+                ev['coverage']['witness_search_error'] = str(e)
+            ev['coverage']['witness'] = witness
     ev['wall_s'] = round(ev['wall_s'], 2)
     os.makedirs(os.path.join(VERIF, 'evidence'), exist_ok=True)
     if undecided:
@@ -362,6 +487,12 @@ def main(argv):
         fd = load_findings()
         desc = next((x for x in fd['open'] if x['id'] == f.finding), {})
         print('KNOWN-FINDING: property=%s %s %s -- %s' % (pid, f.finding, f.oblig, desc.get('what', '')))
+    if undecided and witness:
+        # the verifier could not decide (unsupported construct, lost anchor, ...) but the real code fails on a concrete input
+        path = write_replay(pid, a.tier, [], unit_runs, witness)
+        print('  the verifier could not decide (%s); the witness search found a failing input on the real code: %s' % (undecided[:200], witness['failing_input'][:300]))
+        print('VIOLATION property=%s replay=%s' % (pid, path))
+        return 1
     if undecided:
         print('UNDECIDED property=%s reason=%s' % (pid, undecided[:1500]))
         return 2
